@@ -290,6 +290,13 @@ def classify(diag, meta, gen_lines):
                 props.append(p)
     if rec['class'] == 'builtin':
         props = list(rec['fn_props'])
+    elif rec['class'] == 'labelled' and 'invariant not satisfied' in low and site_fn is not None:
+        # a loop invariant supports EVERY postcondition of its function: when it no longer holds, none of the
+        # function's clauses is proved, whatever single property the invariant's label names (an unlabelled
+        # invariant is owned by the block's props for the same reason).
+        for p in rec['fn_props']:
+            if p not in props:
+                props.append(p)
     rec['props'] = props
     if rec['class'] in ('labelled',):
         rec['obligation'] = '%s/%s/%s' % (meta['unit'], site_fn['name'] if site_fn else '-', '+'.join(rec['labels']))
@@ -919,7 +926,7 @@ def dev_unit(unit, vacuity=True):
 # ------------------------------------------------------------------------------------------------
 # mutation self-test (thorough tier): units/<unit>.mutants.json =
 #   [{"name": "...", "file": "src/x.rs", "from": "<literal>", "to": "<literal>", "expect": "<label regex>",
-#     "occurrence": 1}]
+#     "occurrence": 1}]   ("benign": true = a behaviour-preserving variant: the unit must still verify)
 # Each mutant is applied to a scratch copy of /repo/src (mktemp outside /repo and /verif, removed
 # afterwards); the unit must then FAIL an obligation whose label/obligation id matches `expect`.
 
@@ -970,6 +977,15 @@ def run_mutant(unit, m):
                 shutil.rmtree(g, ignore_errors=True)
             else:
                 os.unlink(g)
+        if m.get('benign'):
+            # a behaviour-preserving variant: the unit must still be posable and every obligation must hold
+            # ('detected' = the self-test expectation is met; anything else is a false alarm or a brittle template)
+            alarms = [f for f in res['failures'] if f['class'] in ('labelled', 'builtin')]
+            if res['status'] == 'ok' and not res['failures']:
+                return {'name': m['name'], 'result': 'detected', 'obligation': 'benign variant verifies'}
+            return {'name': m['name'], 'result': 'missed', 'status': res['status'],
+                    'detail': ('FALSE ALARM on a benign variant: ' if alarms else 'benign variant not decided: ') + res['message'][:160],
+                    'failures': [f['obligation'] for f in res['failures']][:5]}
         if hits:
             return {'name': m['name'], 'result': 'detected', 'obligation': hits[0]['obligation']}
         return {'name': m['name'], 'result': 'missed', 'status': res['status'], 'detail': res['message'][:200],
